@@ -4,6 +4,7 @@
 # SUITE=0 skips the suite run.
 set -uo pipefail
 cd "$(dirname "$0")"; . ./env.sh
+./trimcache.sh
 P=$(readlink -f "$1"); L=${2:-$(basename "$(dirname "$P")")}
 WT=/tmp/benignchk/$L-$$
 rm -rf "$WT"; mkdir -p /tmp/benignchk; rsync -a --exclude .git /repo/ "$WT/"
